@@ -11,10 +11,14 @@
     [spherical_of_object] the call with that object; [angle] is Angle, [vecm w M] the library's w * M.
     Third part (C16_Proofs_Seq.v): histories of calls in one process.  [call] is one call of Rotation_Matrix (with an axis or with
     the default axis), of either Spherical_Coordinates or of Angle, [call_answer c] its answer, [calls_run cs] the answers of the
-    calls cs made one after the other in one process (the source keeps nothing between two calls, so neither does the model). *)
+    calls cs made one after the other in one process (the source keeps nothing between two calls, so neither does the model).
+    Fourth part (C16_Proofs_Chain.v, C16_Proofs_Angle.v): [rot_chain dim fs] is the model of P = Identity_Matrix(dim); P = P * Rotation_Matrix(alpha_k, dim, axis_k)
+    for the list fs of (alpha_k, axis_k), [angle_sum] of sum = 0.0; sum += alpha_k; [proper3 m] = m is 3x3, m^T m = m m^T = 1, det m = 1;
+    [axis3_nonzero ax] = ax is a 3-vector with a non-zero component; [along a0 a1 a2 ax] = ax is a positive multiple of (a0, a1, a2);
+    [nonzero_vec a] = some component of the list a is non-zero. *)
 From Coq Require Import Reals ZArith List.
 From Coquelicot Require Import Coquelicot.
-From LP Require Import Num NumR C16_Model C16_Proofs C16_Proofs_Hist C16_Proofs_Seq.
+From LP Require Import Num NumR C16_Model C16_Proofs C16_Proofs_Hist C16_Proofs_Seq C16_Proofs_Chain C16_Proofs_Angle C16_Proofs_HistDir.
 Import ListNotations.
 Local Open Scope R_scope.
 
@@ -295,3 +299,128 @@ Theorem C16_calls_nonvacuous :
     [CRot 1 3 [1; 2; 2]; CRot (- 1) 3 [1; 2; 2]; CRot 1 2 []; CSph 2 1 1; CRot 1 3 [1; 2; 2]] = Ok answers.
 Proof. exact ex_calls_history. Qed.
 Print Assumptions C16_calls_nonvacuous.
+
+(** ** Products of any number of rotations, axes of any length, whole turns, guards, Angle in every dimension. *)
+
+(** "proper orthogonal ... for every angle and every non-zero axis", for products: the product of ANY number of 3-D rotations about ANY
+    non-zero axes, built with the library's Identity_Matrix and Matrix product, is returned, is proper orthogonal and keeps scalar
+    products (lengths and angles of the vectors it turns)  (induction over the factors) *)
+Theorem C16_rotation_chain_proper (fs : list (R * list R)) :
+  List.Forall (fun f => axis3_nonzero (snd f)) fs ->
+  exists P, rot_chain ROps 3 fs = Ok P /\ proper3 P /\
+    forall v0 v1 v2 w0 w1 w2, dot3 (mvec ROps P [v0; v1; v2]) (mvec ROps P [w0; w1; w2]) = dot3 [v0; v1; v2] [w0; w1; w2].
+Proof. exact (rot_chain_proper_isometry fs). Qed.
+Print Assumptions C16_rotation_chain_proper.
+
+(** "rotations about the same axis compose by adding angles", for any number of factors: (1) 3-D factors whose axes point along one
+    direction with any (different) lengths give the rotation by the sum of the angles; (2) 2-D factors always do, whatever is passed as
+    axis; (3) n equal factors: R(alpha)^n = R(n alpha) for every n *)
+Theorem C16_rotation_chain_adds_angles :
+  (forall (a0 a1 a2 : R) (fs : list (R * list R)), nonzero3 a0 a1 a2 -> List.Forall (fun f => along a0 a1 a2 (snd f)) fs ->
+     rot_chain ROps 3 fs = rotation_matrix ROps (angle_sum ROps (map fst fs)) 3 [a0; a1; a2]) /\
+  (forall (fs : list (R * list R)) (axis : list R),
+     rot_chain ROps 2 fs = rotation_matrix ROps (angle_sum ROps (map fst fs)) 2 axis) /\
+  (forall (alpha a0 a1 a2 : R) (n : nat), nonzero3 a0 a1 a2 ->
+     rot_chain ROps 3 (repeat (alpha, [a0; a1; a2]) n) = rotation_matrix ROps (INR n * alpha) 3 [a0; a1; a2]).
+Proof. exact (conj rot_chain_same_axis (conj rot_chain_2d rot_chain_power)). Qed.
+Print Assumptions C16_rotation_chain_adds_angles.
+
+(** a chain applied to a vector is its factors applied one after the other (the last factor first) *)
+Theorem C16_rotation_chain_applies_factors (fs : list (R * list R)) (alpha : R) (ax : list R) (P Rm P' : list (list R)) (v0 v1 v2 : R) :
+  List.Forall (fun f => axis3_nonzero (snd f)) fs -> axis3_nonzero ax ->
+  rot_chain ROps 3 fs = Ok P -> rotation_matrix ROps alpha 3 ax = Ok Rm -> rot_chain ROps 3 (fs ++ [(alpha, ax)]) = Ok P' ->
+  mvec ROps P' [v0; v1; v2] = mvec ROps P (mvec ROps Rm [v0; v1; v2]).
+Proof. exact (rot_chain_apply_last fs alpha ax P Rm P' v0 v1 v2). Qed.
+Print Assumptions C16_rotation_chain_applies_factors.
+
+(** "every non-zero axis of any length": the matrix and the spherical coordinates depend on the direction of the axis only (k > 0);
+    the opposite direction (k < 0) gives the transposed matrix, which is the rotation by -alpha *)
+Theorem C16_axis_direction_decides (alpha r theta phi k a0 a1 a2 : R) : nonzero3 a0 a1 a2 ->
+  (0 < k ->
+     rotation_matrix ROps alpha 3 [k * a0; k * a1; k * a2] = rotation_matrix ROps alpha 3 [a0; a1; a2] /\
+     spherical_axis ROps Rhypot r theta phi [k * a0; k * a1; k * a2] = spherical_axis ROps Rhypot r theta phi [a0; a1; a2]) /\
+  (k < 0 -> forall Rm, rotation_matrix ROps alpha 3 [a0; a1; a2] = Ok Rm ->
+     rotation_matrix ROps alpha 3 [k * a0; k * a1; k * a2] = Ok (mtr Rm) /\ rotation_matrix ROps (- alpha) 3 [a0; a1; a2] = Ok (mtr Rm)).
+Proof. exact (axis_direction_decides alpha r theta phi k a0 a1 a2). Qed.
+Print Assumptions C16_axis_direction_decides.
+
+(** "for every angle": whole turns do not matter, for every integer number of turns, every dim and every axis argument; the same for
+    theta and phi of both Spherical_Coordinates *)
+Theorem C16_whole_turns (hyp : R -> R -> R) (alpha r theta phi : R) (k m : Z) (dim : Z) (axis : list R) :
+  rotation_matrix ROps (alpha + 2 * IZR k * PI) dim axis = rotation_matrix ROps alpha dim axis /\
+  spherical_axis ROps hyp r (theta + 2 * IZR k * PI) (phi + 2 * IZR m * PI) axis = spherical_axis ROps hyp r theta phi axis /\
+  spherical ROps r (theta + 2 * IZR k * PI) (phi + 2 * IZR m * PI) = spherical ROps r theta phi.
+Proof. exact (conj (rotation_matrix_period alpha k dim axis) (spherical_period hyp r theta phi k m axis)). Qed.
+Print Assumptions C16_whole_turns.
+
+(** the default axis Vector({0, 0, 1}) of Rotation_Matrix(alpha, 3) gives the 2-D rotation in the x-y plane; the angle of every 3-D
+    rotation can be read off the matrix: trace R = 1 + 2 cos(alpha) *)
+Theorem C16_rotation3_default_axis_and_trace (alpha : R) :
+  rotation_matrix ROps alpha 3 [0; 0; 1] = Ok [[cos alpha; - sin alpha; 0]; [sin alpha; cos alpha; 0]; [0; 0; 1]] /\
+  forall a0 a1 a2 Rm, nonzero3 a0 a1 a2 -> rotation_matrix ROps alpha 3 [a0; a1; a2] = Ok Rm ->
+    ent Rm 0 0 + ent Rm 1 1 + ent Rm 2 2 = 1 + 2 * cos alpha.
+Proof. exact (conj (rot3_default alpha) (rot3_trace alpha)). Qed.
+Print Assumptions C16_rotation3_default_axis_and_trace.
+
+(** the guards, for every number type (also the doubles of the extracted model): Rotation_Matrix returns exactly for dim = 2 and for
+    dim = 3 with a 3-component axis, a dim x dim matrix, and ends the process otherwise; Angle returns exactly for equal dimensions;
+    Spherical_Coordinates with an axis returns a 3-vector for every axis with >= 3 components, ends the process for < 2 components and for
+    2 components unless their norm compares equal to zero (then the plain formula is returned before ev[2] is read) *)
+Theorem C16_guards {T} (Ops : NumOps T) (hyp : T -> T -> T) (alpha r theta phi : T) (dim : Z) (axis a b : list T) :
+  ((dim = 2%Z \/ (dim = 3%Z /\ length axis = 3%nat) ->
+      exists Rm, rotation_matrix Ops alpha dim axis = Ok Rm /\ length Rm = Z.to_nat dim /\
+                 List.Forall (fun row => length row = Z.to_nat dim) Rm) /\
+   (~ (dim = 2%Z \/ (dim = 3%Z /\ length axis = 3%nat)) -> rotation_matrix Ops alpha dim axis = Exit)) /\
+  ((length a = length b -> exists x, angle Ops a b = Ok x) /\ (length a <> length b -> angle Ops a b = Exit)) /\
+  (((3 <= length axis)%nat -> exists u, spherical_axis Ops hyp r theta phi axis = Ok u /\ length u = 3%nat) /\
+   (length axis = 2%nat -> spherical_axis Ops hyp r theta phi axis =
+                           if neqb Ops (vnorm Ops axis) (n0 Ops) then Ok (spherical Ops r theta phi) else Exit) /\
+   ((length axis < 2)%nat -> spherical_axis Ops hyp r theta phi axis = Exit)).
+Proof. exact (conj (rotation_matrix_guards Ops alpha dim axis) (conj (angle_guards Ops a b) (spherical_axis_guards Ops hyp r theta phi axis))). Qed.
+Print Assumptions C16_guards.
+
+(** Angle (observe_at), for two non-zero vectors of one dimension, WHATEVER the dimension (induction over the components: Cauchy-Schwarz
+    for the library's Dot): the call returns the angle in [0, pi] whose cosine is v1.v2 / (|v1| |v2|) - over the reals the clamp of the
+    quotient to [-1, 1] never acts -, symmetrically in its arguments; Angle(v, v) = 0 and Angle(v, -v) = pi *)
+Theorem C16_angle_any_dimension (a b : list R) : nonzero_vec a ->
+  (length a = length b -> nonzero_vec b ->
+     exists th, angle ROps a b = Ok th /\ angle ROps b a = Ok th /\ 0 <= th <= PI /\
+       vdot ROps a b = vnorm ROps a * vnorm ROps b * cos th /\
+       th = acos (vdot ROps a b / (vnorm ROps a * vnorm ROps b))) /\
+  angle ROps a a = Ok 0 /\ angle ROps a (map Ropp a) = Ok PI.
+Proof. exact (fun Ha => conj (fun HL Hb => angle_general a b HL Ha Hb) (angle_self a Ha)). Qed.
+Print Assumptions C16_angle_any_dimension.
+
+(** "turns vectors perpendicular to it by alpha", measured with the library's own Angle: Angle(v, R v) = Angle(R v, v) = |alpha|
+    for every alpha in [-pi, pi] (with the handedness theorem C16_rotation3_perpendicular_turned this fixes the turn completely) *)
+Theorem C16_rotation3_turns_by_alpha (alpha a0 a1 a2 : R) (Rm : list (list R)) (v0 v1 v2 : R) : nonzero3 a0 a1 a2 ->
+  rotation_matrix ROps alpha 3 [a0; a1; a2] = Ok Rm -> dot3 [a0; a1; a2] [v0; v1; v2] = 0 -> nonzero3 v0 v1 v2 -> - PI <= alpha <= PI ->
+  angle ROps [v0; v1; v2] (mvec ROps Rm [v0; v1; v2]) = Ok (Rabs alpha) /\
+  angle ROps (mvec ROps Rm [v0; v1; v2]) [v0; v1; v2] = Ok (Rabs alpha).
+Proof. exact (rot3_turn_angle alpha a0 a1 a2 Rm v0 v1 v2). Qed.
+Print Assumptions C16_rotation3_turns_by_alpha.
+
+(** "every non-zero axis of any length", for an axis OBJECT with a past (induction over the history): an object that was only asked questions,
+    copied, rescaled by positive factors (v = v * s, v = s * v, v = v / s), doubled (v += v) and normalised (Normalize(), v = v.Normalized()),
+    any number of times in any order, is a positive multiple of the vector it was constructed from, and Rotation_Matrix and
+    Spherical_Coordinates called with it answer as for that vector *)
+Theorem C16_history_keeping_direction (a0 a1 a2 : R) (h : list (@vstep R)) (v' : list R) : nonzero3 a0 a1 a2 ->
+  List.Forall vstep_keeps_direction h -> vhistory ROps Rhypot [a0; a1; a2] h = Ok v' ->
+  (exists k, 0 < k /\ v' = [k * a0; k * a1; k * a2]) /\
+  (forall alpha, rotation_of_object ROps Rhypot alpha 3 [a0; a1; a2] h = rotation_matrix ROps alpha 3 [a0; a1; a2]) /\
+  (forall r theta phi, spherical_of_object ROps Rhypot r theta phi [a0; a1; a2] h = spherical_axis ROps Rhypot r theta phi [a0; a1; a2]).
+Proof. exact (history_keeps_direction a0 a1 a2 h v'). Qed.
+Print Assumptions C16_history_keeping_direction.
+
+(** Non-vacuity: three factors about three different non-zero axes; three factors along (1, 2, 2) with lengths 3, 9, 3/2; two non-zero
+    5-vectors; an axis, a perpendicular vector and an angle in [-pi, pi]; a direction-keeping history of seven steps that the model accepts *)
+Theorem C16_chain_nonvacuous :
+  List.Forall (fun f => axis3_nonzero (snd f)) [(1, [1; 2; 2]); (-2, [0; 0; -3]); (1 / 2, [3; 0; 4])] /\
+  (nonzero3 1 2 2 /\ List.Forall (fun f => along 1 2 2 (snd f)) [(1, [1; 2; 2]); (-2, [3; 6; 6]); (1 / 2, [1 / 2; 1; 1])]) /\
+  (length [1; 2; 3; 4; 5] = length [0; 0; 0; 0; -2] /\ nonzero_vec [1; 2; 3; 4; 5] /\ nonzero_vec [0; 0; 0; 0; -2]) /\
+  (nonzero3 0 0 2 /\ dot3 [0; 0; 2] [1; 1; 0] = 0 /\ nonzero3 1 1 0 /\ - PI <= -3 <= PI) /\
+  (nonzero3 3 0 4 /\
+   List.Forall vstep_keeps_direction [VQNorm; VTimes 2; VNormalize; VAddSelf; VDivide 4; VCallRotation 1 3; VCopy] /\
+   exists v', vhistory ROps Rhypot [3; 0; 4] [VQNorm; VTimes 2; VNormalize; VAddSelf; VDivide 4; VCallRotation 1 3; VCopy] = Ok v').
+Proof. exact (conj ex_chain_axes (conj ex_chain_along (conj ex_angle_general (conj ex_turn ex_direction_history)))). Qed.
+Print Assumptions C16_chain_nonvacuous.
